@@ -37,8 +37,9 @@ type Coin struct {
 // Funded is a synced, unlocked wallet with a ledger of its coins.
 type Funded struct {
 	*H
-	Coins map[wire.OutPoint]*Coin
-	Acct1 uint32
+	Coins  map[wire.OutPoint]*Coin
+	Acct1  uint32
+	Window uint32 // recovery window this wallet is (re)opened with
 	// ImportedKeys: address (as the wallet encodes it) -> the private key imported for it
 	ImportedKeys map[string]*btcec.PrivateKey
 	Maturity     int32
@@ -62,11 +63,14 @@ func NewFunded(rg *rand.Rand, dir string, wrapDB bool, rounds int) (*Funded, err
 	if err != nil {
 		return nil, err
 	}
-	if err := h.Open(0, true); err != nil {
+	// the daemon always opens its wallet with a recovery window of 250: a third of
+	// the funded wallets do the same (every start then runs the recovery first)
+	window := []uint32{0, 0, 250}[rg.Intn(3)]
+	if err := h.Open(window, true); err != nil {
 		h.Close()
 		return nil, err
 	}
-	f := &Funded{H: h, Coins: map[wire.OutPoint]*Coin{}, Maturity: maturity}
+	f := &Funded{H: h, Coins: map[wire.OutPoint]*Coin{}, Maturity: maturity, Window: window}
 	f.Acct1, err = h.W.NextAccount(waddrmgr.KeyScopeBIP0084, "second")
 	if err != nil {
 		h.Close()
